@@ -17,7 +17,8 @@ import time
 
 from vlib import core, corr
 
-DEPENDS = ["RangeSet", "StreamRecv", "StreamSend", "StreamSpec", "NetSys", "NetSysLive", "C10", "C01"]
+DEPENDS = ["RangeSet", "StreamRecv", "StreamSend", "StreamSpec", "NetSys", "NetSysLive", "NetSysFC", "C01Consts", "C10", "C01"]
+GENERATORS = ["c01_consts"]
 TRUSTED_BASE = [
     "extraction (ExtrOcamlBasic only; Z kept as the extracted inductive) + coq/extract/driver.ml for running exec_netsys "
     "and exec_netsys_complete",
@@ -28,7 +29,13 @@ TRUSTED_BASE = [
     "the qlog extension point (a QuicLogger subclass) is trusted to report packet_sent / packet_received / packet_lost "
     "faithfully; outcomes ACKED/LOST of the model trace are read from it",
     "modelled, not verified: stream.py halves (C10 models) and the STREAM/RESET_STREAM glue of connection.py; "
-    "timers, loss detection, congestion and flow control, key update, CID change and migration are exercised, not modelled",
+    "timers, loss detection, congestion control, key update, CID change and migration are exercised, not modelled; "
+    "connection-level flow control is modelled for ONE stream (coq/model/NetSysFC.v), multi-stream sharing of the credit and "
+    "the stream-level window are exercised (flow-control scenario family), not modelled",
+    "tools/gen/c01_consts.py (ast probe of _write_application / _write_stream_frame / _write_connection_limits / "
+    "_handle_max_data_frame, fail closed) decides which base (highest_offset / next_offset) the theorems are instantiated with",
+    "flow-control coverage counters and the credit compared in the NetSysFC traces read private attributes of the connection "
+    "(_remote_max_data, _remote_max_data_used, sender._pending) before every datagrams_to_send(); no oracle verdict uses them",
 ]
 ASSUMPTIONS = [
     "NetSys: every frame returned by get_frame joins `emitted` and every emitted frame gets at most one outcome, ACKED only "
@@ -37,6 +44,8 @@ ASSUMPTIONS = [
     "fair_schedule_completes (explicit bounded continuation from every reachable state), schedule_accounting / "
     "fair_rounds_complete / fair_round_exists (any schedule with unacked-many useful acknowledgements completes, and one is "
     "always possible); under the real timers it is observed on the explored runs, not proved",
+    "NetSysFC: one stream per connection direction, stream-level limit not binding, initial window w > 0 at both ends; MAX_DATA "
+    "frames may be lost, duplicated and reordered (any advertised value may arrive at any time)",
 ]
 
 NO_CLOSE_CODES = ()
@@ -109,6 +118,30 @@ def build_fate(sc, phase_start_elapsed):
                 acts.append(duplicate(dup_delay))
             return acts
         return fate
+    if kind == "burst":
+        # per direction: skip the first `skip` datagrams sent after the handshake in that direction, lose the next
+        # `drop` of them, then deliver everything (bounded adversarial phase by construction: skip + drop datagrams).
+        # {"c2s": [[skip, drop], ...], "s2c": [[skip, drop], ...], "until": s}: the windows follow each other; whatever
+        # is left of them `until` virtual seconds after the script started is forgotten (PTO probes back off
+        # exponentially: without the time bound a long window would outlast the run)
+        base = f.get("base", 0)
+        wins = {d: [list(w) for w in ([f[d]] if f.get(d) and not isinstance(f[d][0], list) else (f.get(d) or []))]
+                for d in ("c2s", "s2c")}
+        seen = {"c2s": 0, "s2c": 0}
+
+        def fate(index, direction, data):
+            if index < base:
+                return [deliver()]
+            k = seen[direction]
+            seen[direction] = k + 1
+            lo = 0
+            for skip, n in wins[direction]:
+                lo += skip
+                if lo <= k < lo + n:
+                    return [drop()]
+                lo += n
+            return [deliver()]
+        return adversarial_then_fair(fate, fair_after_time=phase_start_elapsed + f.get("until", 2.0))
     raise ValueError(kind)
 
 
@@ -138,12 +171,36 @@ def _make_logger(sink, side):
     return SeqLogger()
 
 
+def _fc_sample(ep):
+    """Coverage only (never used for a verdict): the sender-side flow-control position of `ep` just before it builds
+    datagrams -- remaining connection credit, and per stream with unsent / lost data: (stream id, stream credit,
+    a lost range below highest_offset is waiting).  Private attributes; None when they are not there."""
+    try:
+        conn = ep.conn
+        credit = conn._remote_max_data - conn._remote_max_data_used
+        pend = []
+        for sid, st in conn._streams.items():
+            snd = st.sender
+            if snd.buffer_is_empty or snd.reset_pending or st.is_blocked:
+                continue
+            if len(snd._pending) == 0:
+                continue
+            pend.append((sid, st.max_stream_data_remote - snd.highest_offset, snd.next_offset < snd.highest_offset))
+        return ("s", ep.name, credit, pend)
+    except Exception:
+        return None
+
+
 def _wrap_calls(ep, sink):
     orig = ep.call
     keep = ("send_stream_data", "reset_stream", "stop_stream", "next_event", "receive_datagram")
 
     def call(name, *args, **kwargs):
         n = len(ep.api_log)
+        if name == "datagrams_to_send":
+            smp = _fc_sample(ep)
+            if smp is not None:
+                sink.append(smp)
         try:
             return orig(name, *args, **kwargs)
         finally:
@@ -170,6 +227,8 @@ def run_scenario(sc, keep_pair=False):
         cfgs[side] = {"quic_logger": _make_logger(G, side), "idle_timeout": 600.0}
         for k, v in (sc.get("config") or {}).items():
             cfgs[side][k] = v
+        for k, v in (sc.get("config_" + side) or {}).items():      # e.g. a small max_data / max_stream_data on one side
+            cfgs[side][k] = v
     early = bool(sc.get("faults_from_start"))
     pair = Pair(sc["seed"], client_config=cfgs["client"], server_config=cfgs["server"], versions=ver,
                 congestion_control_algorithm=sc.get("cc", "reno"),
@@ -187,7 +246,7 @@ def run_scenario(sc, keep_pair=False):
             r.base_index = len(pair.network.wire_log)
             if not early:
                 f = dict(sc.get("fate") or {"kind": "perfect"})
-                if f["kind"] == "table":
+                if f["kind"] in ("table", "burst"):
                     f["base"] = r.base_index
                 pair.network.set_fate(build_fate(dict(sc, fate=f), pair.clock.elapsed()))
             r.phase = "script"
@@ -308,12 +367,116 @@ def _index_observer(pair):
 
 
 # ======================================================================================
+# flow-control coverage of a run (counters for the evidence; no verdict depends on them)
+# ======================================================================================
+FC_KEYS = ("conn_credit_zero_with_data_pending", "stream_credit_zero_with_data_pending",
+           "lost_range_pending_at_zero_conn_credit", "lost_range_pending_at_zero_stream_credit",
+           "retransmission_at_zero_conn_credit", "retransmission_at_zero_stream_credit",
+           "max_data_frame_lost", "max_stream_data_frame_lost", "max_data_raised", "max_stream_data_raised",
+           "tail_loss_over_half_window")
+
+
+def fc_stats(r):
+    """Which flow-control situations did this run go through?  From the samples taken before every datagrams_to_send()
+    (sender-side credit, private attributes) and from the qlog (frames sent, packets lost)."""
+    out = dict.fromkeys(FC_KEYS, False)
+    last = {}            # side -> (credit, {sid: (stream credit, lost range waiting)})
+    hi = {}              # (side, sid) -> highest end offset sent so far
+    limit_pns = {}       # (side, pn) -> set of limit frame kinds in that packet
+    sent_bytes = {"client": 0, "server": 0}
+    for ent in r.G:
+        if ent[0] == "s":
+            _, side, credit, pend = ent
+            last[side] = (credit, {sid: (sc_, lost) for sid, sc_, lost in pend})
+            if pend and credit == 0:
+                out["conn_credit_zero_with_data_pending"] = True
+                if any(lost for _, _, lost in pend):
+                    out["lost_range_pending_at_zero_conn_credit"] = True
+            for sid, sc_, lost in pend:
+                if sc_ == 0:
+                    out["stream_credit_zero_with_data_pending"] = True
+                    if lost:
+                        out["lost_range_pending_at_zero_stream_credit"] = True
+            continue
+        if ent[0] != "q":
+            continue
+        _, side, name, data = ent
+        if name == "transport:packet_sent":
+            hdr = data.get("header", {})
+            if hdr.get("packet_type") not in ("1RTT", "0RTT"):
+                continue
+            for fr in data["frames"]:
+                ft = fr.get("frame_type")
+                if ft == "stream":
+                    k = (side, fr["stream_id"])
+                    end = fr["offset"] + fr["length"]
+                    if fr["length"] and fr["offset"] < hi.get(k, 0):
+                        credit, per = last.get(side, (None, {}))
+                        if credit == 0:
+                            out["retransmission_at_zero_conn_credit"] = True
+                        if per.get(fr["stream_id"], (None, None))[0] == 0:
+                            out["retransmission_at_zero_stream_credit"] = True
+                    if end > hi.get(k, 0):
+                        hi[k] = end
+                elif ft in ("max_data", "max_stream_data"):
+                    limit_pns.setdefault((side, hdr["packet_number"]), set()).add(ft)
+                    out[ft + "_raised"] = True
+        elif name == "recovery:packet_lost":
+            for ft in limit_pns.get((side, data.get("packet_number")), ()):
+                out[ft + "_frame_lost"] = True
+    # more than half of a binding window lost at the tail: the receiver has seen at most half of what the sender used
+    fc = r.sc.get("fc") or {}
+    if fc.get("window"):
+        # evaluated at every packet_lost of the sender: bytes charged so far vs. highest offsets the receiver has seen
+        hi2, rx2 = {}, {}
+        for ent in r.G:
+            if ent[0] != "q":
+                continue
+            _, side, name, data = ent
+            if name == "transport:packet_sent":
+                for fr in data["frames"]:
+                    if fr.get("frame_type") == "stream":
+                        k = (side, fr["stream_id"])
+                        hi2[k] = max(hi2.get(k, 0), fr["offset"] + fr["length"])
+            elif name == "recovery:packet_lost":
+                rx = "server" if side == "client" else "client"
+                used = sum(v for (s_, _), v in hi2.items() if s_ == side)
+                got = sum(v for (s_, sid), v in rx2.items() if s_ == rx)
+                if fc.get("mode") != "stream" and used >= fc["window"] and 2 * got <= fc["window"]:
+                    out["tail_loss_over_half_window"] = True
+                sw = fc.get("stream_window")
+                if sw and any(v >= sw and 2 * rx2.get((rx, sid), 0) <= sw for (s_, sid), v in hi2.items() if s_ == side):
+                    out["tail_loss_over_half_window"] = True
+            elif name == "transport:packet_received":
+                for fr in data["frames"]:
+                    if fr.get("frame_type") == "stream":
+                        k = (side, fr["stream_id"])
+                        rx2[k] = max(rx2.get(k, 0), fr["offset"] + fr["length"])
+    return out
+
+
+# ======================================================================================
 # (i) implementation oracle: the property sentence, directly over public behaviour
 # ======================================================================================
 def stall_cause(r, tx):
     """Why did a transfer from `tx` not complete although the network became fair?  Classified from the wire and the
     qlog only; None = unexplained."""
     rx = "server" if tx == "client" else "client"
+    # (0) the sender sits on lost ranges it does not re-send while its flow-control credit is zero: the last sample of
+    #     its credit (taken before its last datagrams_to_send) and the wire (no STREAM frame in its last datagrams)
+    smp = [e for e in r.G if e[0] == "s" and e[1] == tx]
+    if smp:
+        _, _, credit, pend = smp[-1]
+        lost_wait = [(sid, sc_) for sid, sc_, lost in pend if lost]
+        tail = [fr for e in r.G if e[0] == "q" and e[1] == tx and e[2] == "transport:packet_sent"
+                for fr in [e[3]["frames"]]][-4:]
+        silent = bool(tail) and not any(f.get("frame_type") == "stream" for fr in tail for f in fr)
+        if lost_wait and silent and (credit == 0 or any(sc_ <= 0 for _, sc_ in lost_wait)):
+            return ("%s has lost ranges of stream(s) %s waiting below highest_offset but its last %d packets carry no STREAM "
+                    "frame; remaining connection credit %d, stream credit %s: retransmission of bytes already charged is "
+                    "held back by flow control, and the receiver raises the limit only after more data arrives (deadlock)"
+                    % (tx, [sid for sid, _ in lost_wait], len(tail), credit, [sc_ for _, sc_ in lost_wait]),
+                    {"defect": "retransmission_blocked_by_flow_control"})
     # (a) an endpoint keeps discarding everything it receives as undecryptable after a key update
     if any(it.op == "key_update" for it in r.script):
         for side in (tx, rx):
@@ -484,6 +647,8 @@ def project(r):
                  "rx_reset": False, "dirty": False, "ended": False}
     other = {"client": "server", "server": "client"}
     for ent in r.G:
+        if ent[0] == "s":
+            continue
         if ent[0] == "c":
             side, call = ent[1], ent[2]
             if call.exc_type is not None:
@@ -631,6 +796,111 @@ def project(r):
     return P
 
 
+# ======================================================================================
+# (ii-b) projection of a run with ONE data stream per direction to a step trace of coq/model/NetSysFC.v
+#        (NetSys + the connection-level credit): the frames the sender emits must fit the model's max_offset, the
+#        credit the real sender holds before every datagrams_to_send() must be the model's, every MAX_DATA value the
+#        receiver puts on the wire must be the model's raised limit, no delivery may be a FLOW_CONTROL_ERROR
+# ======================================================================================
+def project_fc(r, base_code):
+    """{(tx, sid): (tokens, [(expected out tokens, credit|None, lval|None, lused|None, description)])} for every
+    direction of the run in which exactly one stream carries data and only the connection-level window is configured."""
+    fc = r.sc.get("fc") or {}
+    if fc.get("mode") != "conn" or not getattr(r, "handshake_ok", False):
+        return {}
+    other = {"client": "server", "server": "client"}
+    out = {}
+    for tx in ("client", "server"):
+        sids = [sid for (side, sid), t in r.truth.items() if side == tx]
+        if len(sids) != 1 or r.truth[(tx, sids[0])]["reset"] is not None:
+            continue
+        sid, rx = sids[0], other[tx]
+        w = (r.sc.get("config_" + rx) or {}).get("max_data", 1048576)
+        toks, exp = [base_code, w], []
+        emitted, by_pn, done = [], {}, set()
+        ok = True
+        for ent in r.G:
+            if ent[0] == "s":
+                if ent[1] == tx and exp and exp[-1][1] is None:
+                    e = exp[-1]
+                    exp[-1] = (e[0], ent[2], e[2], e[3], e[4] + " / credit sampled %d" % ent[2])
+                continue
+            if ent[0] == "c":
+                side, call = ent[1], ent[2]
+                if side == tx and call.name == "send_stream_data" and call.exc_type is None and call.args[0] == sid:
+                    data = bytes(call.args[1])
+                    fin = bool(call.kwargs.get("end_stream", call.args[2] if len(call.args) > 2 else False))
+                    toks += [0, int(fin), len(data)] + list(data)
+                    exp.append(([0], None, None, None, "write %d fin=%d" % (len(data), fin)))
+                continue
+            _, side, name, data = ent
+            hdr = data.get("header", {})
+            if name == "transport:packet_sent" and hdr.get("packet_type") in ("1RTT", "0RTT"):
+                pn = hdr["packet_number"]
+                for fr in data["frames"]:
+                    ft = fr.get("frame_type")
+                    if ft == "stream" and side == tx and fr["stream_id"] == sid:
+                        wire = [w_ for w_ in r.observer_packets.get((side, pn), []) if w_.name == "STREAM"
+                                and w_.fields["stream_id"] == sid and w_.fields["offset"] == fr["offset"]
+                                and len(w_.fields["data"]) == fr["length"]]
+                        if not wire:
+                            ok = False
+                            continue
+                        payload = bytes(wire[0].fields["data"])
+                        by_pn.setdefault(pn, []).append(len(emitted))
+                        emitted.append((pn, fr["offset"], fr["length"], bool(fr["fin"])))
+                        toks += [1, len(payload)]
+                        exp.append(([1, fr["offset"], int(bool(fr["fin"])), len(payload)] + list(payload), None, None, None,
+                                    "emit pn=%d [%d,%d) fin=%d" % (pn, fr["offset"], fr["offset"] + fr["length"], fr["fin"])))
+                    elif ft == "max_data" and side == rx:
+                        toks += [4]
+                        exp.append(([0], None, fr["maximum"], None, "receiver sends MAX_DATA %d" % fr["maximum"]))
+            elif name == "transport:packet_received" and hdr.get("packet_type") in ("1RTT", "0RTT"):
+                pn = hdr["packet_number"]
+                for fr in data["frames"]:
+                    ft = fr.get("frame_type")
+                    if ft == "stream" and side == rx and fr["stream_id"] == sid:
+                        cand = [i for i in by_pn.get(pn, []) if emitted[i][1:] == (fr["offset"], fr["length"], bool(fr["fin"]))]
+                        if not cand:
+                            ok = False
+                            continue
+                        toks += [2, cand[0]]
+                        exp.append(([0], None, None, None, "deliver #%d pn=%d" % (cand[0], pn)))
+                    elif ft == "max_data" and side == tx:
+                        toks += [5, fr["maximum"]]
+                        exp.append(([0], None, None, None, "sender receives MAX_DATA %d" % fr["maximum"]))
+                    elif ft == "ack" and side == tx:
+                        for p2 in sorted(by_pn):
+                            if _in_ranges(p2, fr["acked_ranges"]):
+                                for idx in by_pn[p2]:
+                                    if idx not in done:
+                                        done.add(idx)
+                                        toks += [3, idx, 1]
+                                        exp.append(([0], None, None, None, "acked #%d" % idx))
+            elif name == "recovery:packet_lost" and side == tx and data.get("type") in ("1RTT", "0RTT"):
+                for idx in by_pn.get(data["packet_number"], []):
+                    if idx not in done:
+                        done.add(idx)
+                        toks += [3, idx, 0]
+                        exp.append(([0], None, None, None, "lost #%d" % idx))
+        if ok and len(exp) > 1:
+            out[(tx, sid)] = (toks, exp)
+    return out
+
+
+def fc_mismatch(exp, got):
+    """first op at which the model's output (frame / result token, then credit, limit, receiver's used) is not the
+    implementation's; None = don't care"""
+    pos = 0
+    for i, (o, credit, lval, lused, desc) in enumerate(exp):
+        g = got[pos:pos + len(o) + 3]
+        want = list(o) + [credit, lval, lused]
+        if len(g) != len(want) or any(w_ is not None and w_ != g_ for w_, g_ in zip(want, g)):
+            return i, desc, [("*" if w_ is None else w_) for w_ in want[:8] + want[-3:]], g[:8] + g[-3:]
+        pos += len(want)
+    return None
+
+
 def _big_stack():
     # the extracted model recurses over token lists (List.map, app, firstn ... are not tail recursive)
     import resource
@@ -725,6 +995,122 @@ def gen_random_scenarios(rng, n, big=False):
     return out
 
 
+def _own_ids(side):
+    """stream ids `side` may open: bidirectional, unidirectional"""
+    return ([0, 4, 8, 12], [2, 6, 10, 14]) if side == "client" else ([1, 5, 9, 13], [3, 7, 11, 15])
+
+
+def fc_scenario(seed, window, mode, txs, sizes, fate, cc="reno", ver=1, stream_window=None, spread=0.0, lone_fin=False,
+                name=None):
+    """A transfer against a BINDING flow-control window: the receiver of every sender in `txs` advertises
+    max_data = window (mode conn / both) and / or max_stream_data = stream_window (mode stream / both); `sizes` are the
+    bytes written per stream (all at script time 0 .. spread, competing for the connection credit)."""
+    other = {"client": "server", "server": "client"}
+    script = []
+    sc = {"seed": seed, "cc": cc, "ver": ver, "fate": fate,
+          "fc": {"window": window, "mode": mode, "stream_window": stream_window, "senders": list(txs)}}
+    if name:
+        sc["name"] = name
+    rs = random.Random("c01-fc-script-%s" % seed)
+    for tx in txs:
+        cfg = sc.setdefault("config_" + other[tx], {})
+        if mode in ("conn", "both"):
+            cfg["max_data"] = window
+        if mode in ("stream", "both"):
+            cfg["max_stream_data"] = stream_window
+        bidi, uni = _own_ids(tx)
+        for j, n in enumerate(sizes):
+            sid = (uni if rs.random() < 0.3 else bidi).pop(0)
+            t = round(rs.uniform(0.0, spread), 4) if spread else 0.0
+            if lone_fin and j == 0:
+                script.append(_w(tx, sid, n, False, t, seed=seed % 1000 + j))
+                script.append(_w(tx, sid, 0, True, round(t + 0.3, 4)))
+            else:
+                script.append(_w(tx, sid, n, rs.random() < 0.85, t, seed=seed % 1000 + j))
+    script.sort(key=lambda it: it["t"])
+    sc["script"] = script
+    return sc
+
+
+def _split(rng, total, k):
+    if k <= 1 or total < k:
+        return [total]
+    cuts = sorted(rng.sample(range(1, total), k - 1))
+    return [b - a for a, b in zip([0] + cuts, cuts + [total])]
+
+
+def gen_fc_scenarios(rng, n):
+    """Liveness under a binding connection-level / stream-level window combined with loss: windows 2 k - 64 k that the
+    writes exhaust exactly (or by one byte less / more, or several times over), 1-4 competing streams, one or both
+    directions; bursts that lose the tail of the flight (more than half of the window) and / or the receiver's first
+    datagrams (ACK + MAX_DATA / MAX_STREAM_DATA), or heavy random loss; then a fair network."""
+    out = []
+    other = {"client": "server", "server": "client"}
+    for _ in range(n):
+        seed = rng.randrange(1 << 30)
+        W = rng.choice([2048, 3000, 4096, 6000, 8192, 12000, 16384, 24000, 32768, 65536])
+        mode = rng.choice(["conn", "conn", "conn", "stream", "both"])
+        txs = rng.choice([["client"], ["server"], ["client", "server"]])
+        k = rng.choice([1, 1, 2, 3, 4])
+        SW = None
+        if mode == "stream":
+            SW = W
+            sizes = [rng.choice([W, W, 2 * W, W + 1, W - 1, 3 * W // 2 + rng.randrange(100)]) for _ in range(k)]
+        else:
+            total = rng.choice([W, W, W, W + 1, W - 1, 2 * W, 3 * W + rng.randrange(1, 2000), 5 * W // 4])
+            sizes = _split(rng, total, k)
+            if mode == "both":
+                SW = rng.choice([W, max(1024, W // 2), max(1024, W // 4)])
+        # datagrams that make up half of the binding window (1200-byte payloads)
+        half = max(1, (min(W, SW or W) // 2) // 1200)
+        fr = rng.random()
+        fwd = lambda: [rng.choice([0, 1, max(0, half - 1), half, min(10, half + 1)]), rng.choice([3, 6, 12, 24, 40])]
+        rev = lambda: [rng.choice([0, 0, 1, 2]), rng.choice([1, 2, 3, 6])]
+        if fr < 0.08:
+            fate = {"kind": "perfect"}
+        elif fr < 0.30:
+            fate = {"kind": "random", "p_drop": rng.choice([0.2, 0.3, 0.5]), "p_dup": rng.choice([0.0, 0.1]),
+                    "p_reorder": rng.choice([0.0, 0.2]), "max_delay": rng.choice([0.01, 0.05]),
+                    "fair_after": rng.choice([0.3, 1.0, 2.0])}
+        else:
+            fate = {"kind": "burst", "until": rng.choice([0.5, 1.0, 2.0, 4.0])}
+            shape = rng.choice(["tail", "tail", "tail", "rev", "tail+rev", "tail+rev", "two"])
+            for tx in txs:
+                d, b = ("c2s", "s2c") if tx == "client" else ("s2c", "c2s")
+                if shape in ("tail", "tail+rev", "two"):
+                    fate.setdefault(d, []).append(fwd())
+                if shape == "two":
+                    fate[d].append([rng.choice([1, 2, 4]), rng.choice([2, 5, 10])])
+                if shape in ("rev", "tail+rev"):
+                    fate.setdefault(b, []).append(rev())
+        out.append(fc_scenario(seed, W, mode, txs, sizes, fate, cc=rng.choice(["reno", "cubic"]), ver=rng.choice([1, 2]),
+                               stream_window=SW, spread=rng.choice([0.0, 0.0, 0.02, 0.2]), lone_fin=rng.random() < 0.15))
+    return out
+
+
+def fc_grid():
+    """Deterministic core of the family: the window is exhausted exactly by one write burst and everything but the first
+    `keep` datagrams of the flight is lost (so the receiver has seen at most half of the window and will not raise the
+    limit before lost data is re-sent); once with the receiver's first answer lost as well."""
+    out = []
+    i = 0
+    for W, keeps, drop in ((3000, (0, 1), 12), (6000, (0, 1, 2), 12), (12000, (0, 2, 4), 16), (24000, (9,), 20), (32768, (10, 12), 30)):
+        for tx in ("client", "server"):
+            for keep in keeps:
+                d, b = ("c2s", "s2c") if tx == "client" else ("s2c", "c2s")
+                fate = {"kind": "burst", d: [[keep, drop]]}
+                if i % 3 == 2:
+                    fate[b] = [[0, 2]]
+                mode = "conn" if i % 4 != 3 else "stream"
+                sizes = [W] if mode == "stream" or i % 2 == 0 else [W // 2, W - W // 2]
+                if i % 5 == 4:
+                    sizes = [s_ * 3 for s_ in sizes]
+                out.append(fc_scenario(7000 + i, W, mode, [tx], sizes, fate, cc=("reno", "cubic")[i % 2], ver=(1, 2)[(i // 2) % 2],
+                                       stream_window=W if mode == "stream" else None, name="fc_grid_%d" % i))
+                i += 1
+    return out
+
+
 def _w(side, sid, n, fin, t, seed=0):
     return {"side": side, "op": "write", "args": {"stream": sid, "data": {"fill": n, "seed": seed}, "fin": fin}, "t": t}
 
@@ -783,12 +1169,16 @@ class SimSuite:
                       "outcome_histogram": collections.Counter(), "samples": [], "wall_s": 0.0,
                       "stream_traces_replayed": 0, "stream_traces_skipped_too_big": 0, "model_tokens": 0,
                       "bytes_written": 0, "datagrams": 0, "fates": collections.Counter(), "virtual_s": 0.0,
-                      "incomplete_runs": 0}
+                      "incomplete_runs": 0,
+                      # flow-control coverage: number of RUNS in which the situation occurred at least once (fc_stats)
+                      "flow_control": dict.fromkeys(FC_KEYS, 0), "flow_control_runs": 0}
         self._seen = set()
         self.found = {}           # signature key -> (size, what, sig, scenario, extra)
         # replaying a trace costs about 20 ms per step on a 60 KB stream in the extracted model (Z and nat stay the
         # extracted inductives): the quick tier replays the traces up to this size, the thorough tier nearly all
         self.max_tokens = 400000 if ctx.thorough else 30000
+        self.fc_base_code = None      # 0 / 1: which base the tree computes max_offset from (tools/gen/c01_consts.py)
+        self.fc_pending = []
 
     def note(self, what, sig, sc, size, kind="impl-violation", extra=None):
         key = json.dumps(sig, sort_keys=True)
@@ -806,6 +1196,8 @@ class SimSuite:
             st["datagrams"] += r.n_datagrams
             st["virtual_s"] += r.elapsed
             st["fates"][(sc.get("fate") or {}).get("kind", "perfect")] += 1
+            if sc.get("fc"):
+                st["fates"]["window:%s" % sc["fc"]["mode"]] += 1
             nbytes = sum(len(t["data"]) for t in r.truth.values())
             st["bytes_written"] += nbytes
             st["size_histogram"][corr._bucket(len(r.script))] += 1
@@ -813,6 +1205,10 @@ class SimSuite:
                 st["op_histogram"][it.op] += 1
             if not r.completed:
                 st["incomplete_runs"] += 1
+            if sc.get("fc"):
+                st["flow_control_runs"] += 1
+            for k_, v_ in fc_stats(r).items():
+                st["flow_control"][k_] += int(v_)
             key = json.dumps(sc, sort_keys=True)
             if key not in self._seen:
                 self._seen.add(key)
@@ -826,6 +1222,10 @@ class SimSuite:
                 st["oracle_failures"] += 1
                 for what, sig in bad:
                     self.note(what, sig, sc, r.n_datagrams + len(r.script))
+            if self.fc_base_code is not None:
+                for k, (toks, exp) in sorted(project_fc(r, self.fc_base_code).items()):
+                    if len(toks) <= self.max_tokens:
+                        self.fc_pending.append((sc, k, toks, exp, bool(bad), r.n_datagrams + len(r.script)))
             P = project(r)
             for k, pr in sorted(P.items()):
                 st["steps"] += len(pr.ops)
@@ -871,6 +1271,31 @@ class SimSuite:
             self.note(what, {"suite": self.name, "kind": "correspondence"}, sc, size, kind="correspondence",
                       extra={"stream": list(k), "step": i, "steps_before": pr.ops[max(0, i - 12):i + 1],
                              "impl_output": e, "model_output": g, "correspondence": self.name})
+
+    def flush_fc(self):
+        """replay the flow-control traces in the extracted NetSysFC model"""
+        st = self.stats
+        st["fc_traces_replayed"] = st.get("fc_traces_replayed", 0)
+        st["fc_model_steps"] = st.get("fc_model_steps", 0)
+        st["fc_credit_samples_compared"] = st.get("fc_credit_samples_compared", 0)
+        if not self.fc_pending:
+            return
+        outs = core.run_model("exec_netsys_fc", [p[2] for p in self.fc_pending])
+        for (sc, k, toks, exp, oracle_bad, size), got in zip(self.fc_pending, outs):
+            st["fc_traces_replayed"] += 1
+            st["fc_model_steps"] += len(exp)
+            st["fc_credit_samples_compared"] += len([e for e in exp if e[1] is not None])
+            mm = fc_mismatch(exp, got)
+            if mm is None or oracle_bad:
+                continue
+            st["disagreements"] += 1
+            i, desc, want, g = mm
+            self.note("%s stream %d: flow-control step %d '%s' is not the model's (NetSysFC): implementation %s, model %s "
+                      "(layout: output tokens ..., credit, receiver limit, receiver used; 9 = not enabled, 3 = FLOW_CONTROL_ERROR)"
+                      % (k[0], k[1], i, desc, want, g), {"suite": self.name, "kind": "correspondence-fc"}, sc, size,
+                      kind="correspondence", extra={"stream": list(k), "step": i, "steps_before": [e[4] for e in exp[max(0, i - 12):i + 1]],
+                                                    "correspondence": "netsys-fc"})
+        self.fc_pending = []
 
     def report(self):
         """One ctx.violation per distinct defect signature, with the smallest scenario that shows it."""
@@ -1250,6 +1675,20 @@ def _quiet_logs():
     logging.getLogger("quic").setLevel(logging.CRITICAL)
 
 
+def _fc_base_code():
+    """0 = the tree computes max_offset from highest_offset, 1 = from next_offset, None = shape not recognised (the
+    generator fails closed; the traces are then not replayed, the oracle still judges every run)"""
+    try:
+        import sys
+        tools = os.path.join(core.VERIF, "tools")
+        if tools not in sys.path:
+            sys.path.insert(0, tools)
+        from gen import c01_consts
+        return {"BaseHighest": 0, "BaseNext": 1}[c01_consts.read()[0]]
+    except Exception:
+        return None
+
+
 def run(ctx):
     _quiet_logs()
     suite = SimSuite(ctx)
@@ -1276,6 +1715,26 @@ def run(ctx):
             cases = [c for c in cases if "dup" in c["fate"]] + rng.sample([c for c in cases if "drop" in c["fate"]], min(8, n_after))
         suite.run(cases, "single-fault")
         exhaustive.append({"script": name, "datagrams": n_after, "placements": len(cases)})
+    # 4b. liveness under a BINDING flow-control window combined with loss (own PRNG stream: the families above and the
+    #     function-level suites below draw the same cases as before)
+    fc_rng = random.Random("c01-fc/%s/%d" % (ctx.tier, ctx.seed))
+    suite.fc_base_code = _fc_base_code()
+    suite.run(fc_grid(), "flow-control grid")
+    suite.run(gen_fc_scenarios(fc_rng, ctx.n(70, 1500)), "flow-control random")
+    try:
+        suite.flush_fc()
+    except core.BuildError:
+        pass          # model not built: reported through ctx.proof_ok() by main.py
+    fcs = suite.stats["flow_control"]
+    for need in ("conn_credit_zero_with_data_pending", "stream_credit_zero_with_data_pending",
+                 "lost_range_pending_at_zero_conn_credit", "retransmission_at_zero_conn_credit",
+                 "retransmission_at_zero_stream_credit", "tail_loss_over_half_window", "max_data_frame_lost"):
+        # the family must really reach the situations it is there for (measured, on the tree under test); on a tree
+        # that cannot retransmit at zero credit the retransmission counters are 0 and the oracle has already fired
+        if fcs[need] == 0 and not suite.found and ctx.budget_scale >= 1.0:
+            ctx.violation("harness", "flow-control family never reached the situation %r on this tree (%d runs): the "
+                          "window-exhausted liveness check would be vacuous" % (need, suite.stats["flow_control_runs"]),
+                          None, no_input=True)
     suite.report()
     # 5. function-level: the real stream halves under the NetSys glue, every step kind (resets included), and the
     #    completing continuation of fair_schedule_completes / reset_completes computed by the extracted model
@@ -1290,7 +1749,12 @@ def run(ctx):
         "end-to-end runs of two real QuicConnections under harness/sim: application scripts (<= 6 streams, bidi/uni, both "
         "directions, writes 0-40 KiB, FIN / reset / stop, ping, key update, CID change, client rebind) x per-datagram fates "
         "(deliver, drop, delay, duplicate, reorder) in an adversarial phase followed by a fair phase, reno/cubic x QUIC v1/v2; "
-        "plus fixed scripts with every single-fault placement.  distinct = distinct scenario description; non-trivial = "
+        "plus fixed scripts with every single-fault placement; plus the flow-control family: the receiver advertises a small "
+        "max_data / max_stream_data (2 k - 64 k) that 1-4 competing streams exhaust exactly (or +-1 byte, or several times "
+        "over), one or both directions, and bursts lose the tail of the flight (more than half of the window), the "
+        "receiver's ACK + MAX_DATA / MAX_STREAM_DATA datagrams, or 20-50 % of everything, before the network turns fair "
+        "(correspondence.netsys.flow_control counts the runs that reached zero credit with data pending, retransmitted at "
+        "zero credit, lost a MAX_DATA frame, ...).  distinct = distinct scenario description; non-trivial = "
         "stream bytes were written and datagrams were exchanged after the handshake.  Every run is checked by the "
         "implementation oracle and projected per stream and direction to a NetSys step trace replayed in the extracted model.  "
         "halves / halves-live: random schedules of every NetSys step kind (resets, duplicates, disabled steps) on the real "
